@@ -57,6 +57,19 @@ def gen_case(rng):
     k = rng.randrange(nd)
     lab = sp["labels"][k]
     n = len(lab)
+    if what == 'dropna' and nd >= 2 and v.size // n >= 2 and rng.random() < 0.25:
+        # one slice holding both infinities and no NaN: nothing is missing in it
+        sl_ = np.take(v, rng.randrange(n), axis=k)
+        if not np.isnan(sl_).any():
+            ix_ = [slice(None)] * nd
+            ix_[k] = rng.randrange(n)
+            blk = v[tuple(ix_)]
+            if not np.isnan(blk).any():
+                blk.ravel()[0] = np.inf
+                flat = blk.reshape(-1)
+                flat[0], flat[1] = np.inf, -np.inf
+                v[tuple(ix_)] = flat.reshape(blk.shape)
+                pat += '+bothinf'
     c = {"what": what, "a": sp, "k": k, "by_pos": rng.random() < 0.5, "pat": pat, "neg_pos": rng.random() < 0.3}
     if what == 'sortkey':
         perm = rng.sample(range(n), n)
